@@ -3687,6 +3687,13 @@ func (r *Resolver) processDelegation(ctx context.Context, rs *resolveState, resp
 	// than restarting the lease (GHSA-mqfw-f48p-2vc8).
 	observedAt := time.Now()
 	leaseDeadline := observedAt.Add(time.Duration(nsInfo.nsTTL) * time.Second)
+	if ceiling := observedAt.Add(authority.MaximumLease); leaseDeadline.After(ceiling) {
+		// The delegation cache stops using the delegation after the
+		// ceiling; what was learned through it must stop with it. Without
+		// the cap here the cut deadline handed to the answer cache ran to
+		// the full NS TTL (two days for most TLD referrals).
+		leaseDeadline = ceiling
+	}
 
 	// DNSSEC validation for delegation
 	newParentDS, err := r.validateDelegation(ctx, rs.req, resp, q, rs.parentDS, rs.servers.Zone)
